@@ -151,6 +151,9 @@ def run_multi(spec, res):
         Ts = [int(W + rng.integers(0, 25)) for _ in range(ns)]
         if rng.random() < 0.3:
             Ts[int(rng.integers(0, ns))] = W  # a series with exactly one window
+        if rng.random() < 0.25:
+            Ts = [Ts[0]] * ns                 # all series of identical shape (a tempting "fast path")
+            res.count("equal_shape_tuples")
         fills = [FILLS[int(rng.integers(0, 5))] for _ in range(ns)]
         case = dict(what="multi", W=W, N=N, Ts=Ts, fills=fills, rng=[int(v) for v in spec["seed"]] + [i])
         check_multi(res, dp, case)
